@@ -217,17 +217,38 @@ def code (s : String) : Nat := s.toUTF8.data.foldl (fun a b => a * 256 + b.toNat
 section Contract
 variable {α : Type} [BEq α]
 
-/-- a row of the parser table: state, element, handler, needsNode, prelude, switch, target, push -/
-abbrev RowG (α : Type) := α × α × α × Bool × Bool × Bool × α × Bool
+/-! The checkers work on tables GROUPED by their first component (`groupAdj`): a table is searched in two
+    short steps (the group, then the entry) — that is the form the kernel evaluates in seconds.  They take
+    the tables as plain arguments. -/
 
-/- The checkers take the tables they use as plain arguments (not bundled in `Tab`): that is the form the
-   kernel evaluates fast. -/
+/-- runs of adjacent equal keys: [(k, v)] ↦ [(k, [v…])] (the translators group the number-coded tables the same way) -/
+def groupAdj {β : Type} : List (α × β) → List (α × List β)
+  | [] => []
+  | (k, v) :: rest =>
+    match groupAdj rest with
+    | (k', vs) :: gs => if k == k' then (k, v :: vs) :: gs else (k, [v]) :: (k', vs) :: gs
+    | [] => [(k, [v])]
 
-def lookupG (accept : List (RowG α)) (st el : α) (hasNode : Bool) : Option (RowG α) :=
-  accept.find? fun r => r.1 == st && r.2.1 == el && (!r.2.2.2.1 || hasNode)
+/-- the entries of key `k` (of its first group) -/
+def entries {β : Type} : List (α × List β) → α → List β
+  | [], _ => []
+  | (k', vs) :: gs, k => if k' == k then vs else entries gs k
 
-def childrenOf (children : List (α × α)) (p : α) : List α :=
-  (children.filter fun x => x.1 == p).map (·.2)
+def hasEntry (t : List (α × List α)) (k v : α) : Bool := (entries t k).contains v
+
+/-- a row of the parser table of one state: element, handler, needsNode, prelude, switch, target, push -/
+abbrev RowG (α : Type) := α × α × Bool × Bool × Bool × α × Bool
+
+/-- the grouped parser table: state ↦ rows -/
+abbrev AcceptG (α : Type) := List (α × List (RowG α))
+
+/-- the row start_element_handler ends up with for element `el` among the rows of the current state -/
+def lookupRow : List (RowG α) → α → Bool → Option (RowG α)
+  | [], _, _ => none
+  | r :: rs, el, hasNode => if r.1 == el && (!r.2.2.1 || hasNode) then some r else lookupRow rs el hasNode
+
+def lookupG (accept : AcceptG α) (st el : α) (hasNode : Bool) : Option (RowG α) :=
+  lookupRow (entries accept st) el hasNode
 
 /-- a place of the walk: writer element `elem` just entered, the parser then in `state`, node stack (non-)empty -/
 structure Visit (α : Type) where
@@ -248,62 +269,77 @@ structure Offence (α : Type) where
   kind : OffKind
   deriving Repr, DecidableEq, BEq
 
-/-- one child of a visited element: an offence, and/or a new place to visit -/
-def visitChild (accept : List (RowG α)) (silent : List α) (passthrough : α) (v : Visit α) (ch : α) :
-    Option (Offence α) × Option (Visit α) :=
-  match lookupG accept v.state ch v.hasNode with
+/-- what one child `ch` of a visited element does: an offence, and/or a new place to visit, and the
+    (element, handler) pair when a start_* function reads its attributes (elements dropped by name have no
+    handler reading their attributes; start_instance_parameter reads them and then skips the subtree) -/
+structure Step (α : Type) where
+  off : Option (Offence α)
+  next : Option (Visit α)
+  handler : Option (α × α)
+  deriving Repr
+
+def stepChild (rows : List (RowG α)) (silent : List α) (passthrough instanceParameter : α) (v : Visit α) (ch : α) :
+    Step α :=
+  match lookupRow rows ch v.hasNode with
   | some r =>
-    let target := r.2.2.2.2.2.2.1
-    if target == passthrough then (none, none)       -- skipped together with its subtree, by design
-    else if r.2.2.2.2.2.1 && target == v.state then (some ⟨v.state, v.elem, ch, .selfSwitch⟩, none)
-    else (none, some ⟨ch, target, v.hasNode || r.2.2.2.2.2.2.2⟩)
+    let h := r.2.1
+    let prelude := r.2.2.2.1
+    let switch := r.2.2.2.2.1
+    let target := r.2.2.2.2.2.1
+    let push := r.2.2.2.2.2.2
+    if target == passthrough then
+      -- skipped together with its subtree, by design
+      ⟨none, none, if !prelude && !(h == instanceParameter) then none else some (ch, h)⟩
+    else if switch && target == v.state then ⟨some ⟨v.state, v.elem, ch, .selfSwitch⟩, none, some (ch, h)⟩
+    else ⟨none, some ⟨ch, target, v.hasNode || push⟩, some (ch, h)⟩
   | none =>
-    if silent.contains ch then (none, none)
-    else (some ⟨v.state, v.elem, ch, .unknown⟩, none)
+    if silent.contains ch then ⟨none, none, none⟩
+    else ⟨some ⟨v.state, v.elem, ch, .unknown⟩, none, none⟩
+
+/-- all steps from one place -/
+def stepsOf (children : List (α × List α)) (accept : AcceptG α) (silent : List α) (passthrough instanceParameter : α)
+    (v : Visit α) : List (Step α) :=
+  (entries children v.elem).map (stepChild (entries accept v.state) silent passthrough instanceParameter v)
+
+/-- all steps from the places in `R` -/
+def walkG (children : List (α × List α)) (accept : AcceptG α) (silent : List α) (passthrough instanceParameter : α)
+    (R : List (Visit α)) : List (Step α) :=
+  R.flatMap (stepsOf children accept silent passthrough instanceParameter)
 
 /-- the places the walk reaches, breadth first from `work` (for the driver; Props/C15.lean checks a literal
     copy of this list to be an inductive invariant of the walk in one pass) -/
-def reachG (children : List (α × α)) (accept : List (RowG α)) (silent : List α) (passthrough : α) :
+def reachG (children : List (α × List α)) (accept : AcceptG α) (silent : List α) (passthrough instanceParameter : α) :
     Nat → List (Visit α) → List (Visit α) → List (Visit α)
   | 0, _, seen => seen.reverse
   | _, [], seen => seen.reverse
   | fuel + 1, v :: work, seen =>
-    if seen.contains v then reachG children accept silent passthrough fuel work seen
-    else reachG children accept silent passthrough fuel
-      (work ++ (childrenOf children v.elem).filterMap fun ch => (visitChild accept silent passthrough v ch).2) (v :: seen)
+    if seen.contains v then reachG children accept silent passthrough instanceParameter fuel work seen
+    else reachG children accept silent passthrough instanceParameter fuel
+      (work ++ (stepsOf children accept silent passthrough instanceParameter v).filterMap (·.next)) (v :: seen)
 
 /-- `R` contains the starting place and is closed under "enter a child element" -/
-def closedG (children : List (α × α)) (accept : List (RowG α)) (silent : List α) (passthrough : α)
-    (start : Visit α) (R : List (Visit α)) : Bool :=
-  R.contains start &&
-  R.all fun v => (childrenOf children v.elem).all fun ch =>
-    match (visitChild accept silent passthrough v ch).2 with
+def closedOf (start : Visit α) (R : List (Visit α)) (steps : List (Step α)) : Bool :=
+  R.contains start && steps.all fun s => match s.next with
     | some w => R.contains w
     | none => true
 
-/-- the offences met from the places in `R` (first occurrence order, no duplicates) -/
-def offFromG (children : List (α × α)) (accept : List (RowG α)) (silent : List α) (passthrough : α)
-    (R : List (Visit α)) : List (Offence α) :=
-  (R.flatMap fun v => (childrenOf children v.elem).filterMap fun ch =>
-    (visitChild accept silent passthrough v ch).1).eraseDups
+/-- the offences met (first occurrence order, no duplicates) -/
+def offOf (steps : List (Step α)) : List (Offence α) := (steps.filterMap (·.off)).eraseDups
 
-/-- (element, handler) pairs met from the places in `R`: which start_* function reads the attributes of
-    which written element (elements dropped by name have no handler reading their attributes;
-    start_instance_parameter reads them and then skips the subtree) -/
-def handlersFromG (children : List (α × α)) (accept : List (RowG α)) (passthrough instanceParameter : α)
-    (R : List (Visit α)) : List (α × α) :=
-  (R.flatMap fun v => (childrenOf children v.elem).filterMap fun ch =>
-    (lookupG accept v.state ch v.hasNode).bind fun r =>
-      if r.2.2.2.2.2.2.1 == passthrough && !r.2.2.2.2.1 && !(r.2.2.1 == instanceParameter) then none
-      else some (ch, r.2.2.1)).eraseDups
+/-- (element, handler) pairs met: which start_* function reads the attributes of which written element -/
+def handlersOfSteps (steps : List (Step α)) : List (α × α) := (steps.filterMap (·.handler)).eraseDups
+
+/-- the whole walk in one evaluation: (R is closed, offences, handlers) -/
+def summaryG (children : List (α × List α)) (accept : AcceptG α) (silent : List α) (passthrough instanceParameter : α)
+    (start : Visit α) (R : List (Visit α)) : Bool × List (Offence α) × List (α × α) :=
+  let steps := walkG children accept silent passthrough instanceParameter R
+  (closedOf start R steps, offOf steps, handlersOfSteps steps)
 
 /-- (element, handler, attribute) written by the scanner and not fetched by the handler -/
-def unfetchedG (attrs fetched : List (α × α)) (hs : List (α × α)) : List (α × α × α) :=
+def unfetchedG (attrs fetched : List (α × List α)) (hs : List (α × α)) : List (α × α × α) :=
   hs.flatMap fun (el, h) =>
-    ((attrs.filter fun a => a.1 == el).filter fun a => !fetched.contains (h, a.2)).map fun a => (el, h, a.2)
-
-def literalsOf (literals : List (α × α × α × Bool)) (handler attr : α) : List (α × Bool) :=
-  (literals.filter fun l => l.1 == handler && l.2.1 == attr).map fun l => (l.2.2.1, l.2.2.2)
+    let f := entries fetched h
+    ((entries attrs el).filter fun a => !f.contains a).map fun a => (el, h, a)
 
 /-- a value is recognised when it is one of the literals the handler compares with; an attribute
     compared with the single literal "1" (or "0") is two-valued and both "0" and "1" are decided by it -/
@@ -313,13 +349,16 @@ def recognised (zero one : α) (lits : List (α × Bool)) (v vLower : α) : Bool
 
 /-- (element, handler, attribute, value): enumerated values the writer can produce for an attribute
     whose values the handler distinguishes by literal comparison, and that match none of them
-    (attributes that can also carry free-form text, like the `name` of a type, are not enumerations) -/
-def offValuesG (values : List (α × α × α × α)) (dynamic : List (α × α)) (literals : List (α × α × α × Bool))
-    (zero one : α) (hs : List (α × α)) : List (α × α × α × α) :=
+    (attributes that can also carry free-form text, like the `name` of a type, are not enumerations).
+    values: element ↦ (attribute, value, lower-cased value); literals: handler ↦ (attribute, literal, caseless) -/
+def offValuesG (values : List (α × List (α × α × α))) (dynamic : List (α × List α))
+    (literals : List (α × List (α × α × Bool))) (zero one : α) (hs : List (α × α)) : List (α × α × α × α) :=
   hs.flatMap fun (el, h) =>
-    (values.filter fun x => x.1 == el && !dynamic.contains (x.1, x.2.1)).filterMap fun x =>
-      let lits := literalsOf literals h x.2.1
-      if lits.isEmpty || recognised zero one lits x.2.2.1 x.2.2.2 then none else some (el, h, x.2.1, x.2.2.1)
+    let dyn := entries dynamic el
+    let lits := entries literals h
+    ((entries values el).filter fun x => !dyn.contains x.1).filterMap fun x =>
+      let ls := (lits.filter fun l => l.1 == x.1).map fun l => (l.2.1, l.2.2)
+      if ls.isEmpty || recognised zero one ls x.2.1 x.2.2 then none else some (el, h, x.1, x.2.1)
 
 end Contract
 
@@ -331,11 +370,21 @@ def writtenElements : List String := (Gen.c15PyChildren.map (·.2)).eraseDups
 /-- written element names for which the unknown-element warning is suppressed -/
 def silentS : List String := writtenElements.filter silentPrefix
 
-def valuesS : List (String × String × String × String) :=
-  Gen.c15PyValues.map fun x => (x.1, x.2.1, x.2.2, lower x.2.2)
+/-! the string tables, grouped (what the number-coded grouped tables of Gen are the coding of) -/
 
-def literalsS : List (String × String × String × Bool) :=
-  Gen.c15CLiterals.map fun l => (l.1, l.2.1, if l.2.2.2 then lower l.2.2.1 else l.2.2.1, l.2.2.2)
+def childrenS : List (String × List String) := groupAdj Gen.c15PyChildren
+def attrsS : List (String × List String) := groupAdj Gen.c15PyAttrs
+def valuesS : List (String × List (String × String × String)) :=
+  groupAdj (Gen.c15PyValues.map fun x => (x.1, x.2.1, x.2.2, lower x.2.2))
+def dynamicS : List (String × List String) := groupAdj Gen.c15PyDynamic
+def acceptS : AcceptG String :=
+  groupAdj (Gen.c15CAccept.map fun r => (r.1, r.2.1, r.2.2.1, r.2.2.2.1, r.2.2.2.2.1, r.2.2.2.2.2.1, r.2.2.2.2.2.2.1, r.2.2.2.2.2.2.2))
+def fetchedS : List (String × List String) := groupAdj Gen.c15CFetched
+def literalsS : List (String × List (String × String × Bool)) :=
+  groupAdj (Gen.c15CLiterals.map fun l => (l.1, l.2.1, if l.2.2.2 then lower l.2.2.1 else l.2.2.1, l.2.2.2))
+
+def keysDistinct {β : Type} (t : List (String × β)) : Bool :=
+  (t.map (·.1)).eraseDups.length == t.length
 
 def codeVisit (v : Visit String) : Visit Nat := ⟨code v.elem, code v.state, v.hasNode⟩
 def codeOffence (o : Offence String) : Offence Nat := ⟨code o.state, code o.parent, code o.child, o.kind⟩
@@ -343,23 +392,42 @@ def code2 (x : String × String) : Nat × Nat := (code x.1, code x.2)
 def code3 (x : String × String × String) : Nat × Nat × Nat := (code x.1, code x.2.1, code x.2.2)
 def code4 (x : String × String × String × String) : Nat × Nat × Nat × Nat :=
   (code x.1, code x.2.1, code x.2.2.1, code x.2.2.2)
+def codeRow (r : RowG String) : RowG Nat :=
+  (code r.1, code r.2.1, r.2.2.1, r.2.2.2.1, r.2.2.2.2.1, code r.2.2.2.2.2.1, r.2.2.2.2.2.2)
+def codeG {β γ : Type} (f : β → γ) (t : List (String × List β)) : List (Nat × List γ) :=
+  t.map fun g => (code g.1, g.2.map f)
+
+/-- the number-coded grouped tables of Gen ARE the string tables, coded and grouped (evaluated by the
+    compiled driver on every run, op c15.coded; in the kernel this comparison would take minutes) -/
+def tablesCoded : List (String × Bool) := [
+  ("c15PyChildrenG", Gen.c15PyChildrenG == codeG code childrenS),
+  ("c15PyAttrsG", Gen.c15PyAttrsG == codeG code attrsS),
+  ("c15PyValuesG", Gen.c15PyValuesG == codeG code3 valuesS),
+  ("c15PyDynamicG", Gen.c15PyDynamicG == codeG code dynamicS),
+  ("c15CAcceptG", Gen.c15CAcceptG == codeG codeRow acceptS),
+  ("c15CFetchedG", Gen.c15CFetchedG == codeG code fetchedS),
+  ("c15CLiteralsG", Gen.c15CLiteralsG == codeG (fun l => (code l.1, code l.2.1, l.2.2)) literalsS),
+  -- every key has ONE group (`entries` reads the first): the flat tables are sorted / state-major
+  ("keys distinct", keysDistinct childrenS && keysDistinct attrsS && keysDistinct valuesS && keysDistinct dynamicS
+      && keysDistinct acceptS && keysDistinct fetchedS && keysDistinct literalsS)]
 
 /-! for the driver and `#eval`: the walk and the offences in readable form -/
 
 def startVisit : Visit String := ⟨"", "START", false⟩
 
 def reachable : List (Visit String) :=
-  reachG Gen.c15PyChildren Gen.c15CAccept silentS "PASSTHROUGH" 4000 [startVisit] []
+  reachG childrenS acceptS silentS "PASSTHROUGH" "start_instance_parameter" 4000 [startVisit] []
 
-def offElements : List (Offence String) :=
-  offFromG Gen.c15PyChildren Gen.c15CAccept silentS "PASSTHROUGH" reachable
+def summaryS : Bool × List (Offence String) × List (String × String) :=
+  summaryG childrenS acceptS silentS "PASSTHROUGH" "start_instance_parameter" startVisit reachable
 
-def handlersOf : List (String × String) :=
-  handlersFromG Gen.c15PyChildren Gen.c15CAccept "PASSTHROUGH" "start_instance_parameter" reachable
+def offElements : List (Offence String) := summaryS.2.1
 
-def unfetched : List (String × String × String) := unfetchedG Gen.c15PyAttrs Gen.c15CFetched handlersOf
+def handlersOf : List (String × String) := summaryS.2.2
+
+def unfetched : List (String × String × String) := unfetchedG attrsS fetchedS handlersOf
 
 def offValues : List (String × String × String × String) :=
-  offValuesG valuesS Gen.c15PyDynamic literalsS "0" "1" handlersOf
+  offValuesG valuesS dynamicS literalsS "0" "1" handlersOf
 
 end GIVerif.GirConsume
